@@ -35,6 +35,33 @@ fn main() {
                 Err(e) => bad = Some(format!("flushed record at {o2} not readable through a long-lived reader: {e}")),
             }
         }
+        "reuse_oversized" => {
+            // first record ends just past the 64 KiB read-ahead window and is the last flushed one when the long-lived
+            // reader caches it; the next (small) record then starts inside the page-rounded tail of that oversized fill
+            for lead in [65536u64 - 20, 65536 - 9, 65536 - 1] {
+                let dir2 = tempfile::tempdir().unwrap();
+                let p2 = dir2.path().join("seg");
+                let mut w = Writer::<1>::create(&p2, 1 << 20, 0).unwrap();
+                let mut r = Reader::<1>::open(&p2, Some(w.flushed_offset())).unwrap();
+                // pad so that the record under test starts at `lead - 9` and crosses 65536
+                let pad = (lead - 9 - 9) as usize;
+                w.append(&[0], &vec![5u8; pad]).unwrap();
+                let (o1, _) = w.append(&[1], &vec![6u8; 30]).unwrap();
+                w.sync().unwrap();
+                let mut it_off = 0u64;
+                loop {
+                    match r.read_record(it_off, ReadHint::Sequential) { Ok(rec) => it_off += rec.len as u64, Err(_) => break }
+                }
+                assert!(it_off > o1);
+                let (o2, _) = w.append(&[2], &d2).unwrap();
+                w.sync().unwrap();
+                match r.read_record(o2, hint) {
+                    Ok(rec) if &*rec.data == &d2[..] => {}
+                    Ok(rec) => bad = Some(format!("read at {o2} returned different bytes: {:?}", rec.data)),
+                    Err(e) => bad = Some(format!("record flushed at {o2} (inside the page-rounded tail of an oversized read-ahead fill) is not readable through the long-lived reader: {e}")),
+                }
+            }
+        }
         "truncate" => {
             let (o1, _) = w.append(&[1], &d1).unwrap();
             let (o2, _) = w.append(&[2], &d2).unwrap();
